@@ -141,7 +141,9 @@ theorem cmpV_total {op : Cmp} {a b : Val} (hg : s.guard = none) (hP : PrimeP s)
     (hca : a.isLcb = true → b.num = 0 ∨ b.num = 1) (hcb : b.isLcb = true → a.num = 0 ∨ a.num = 1)
     (h : pyCmpOk s.p s.bitlength op a.num b.num) : Ok (cmpV op a b) s := by
   cases a with
-  | lc x => simp only [cmpV]; exact cmpLV_total hg hP hb h
+  | lc x =>
+    cases b <;> simp only [Val.isSc, Bool.false_eq_true] at hb <;> simp only [cmpV] <;>
+      exact cmpLV_total hg hP rfl h
   | lcb x =>
     simp only [cmpV]
     obtain ⟨y, s1, h1, sm, vy⟩ := ensurebool_total hg hb (hca rfl)
